@@ -399,6 +399,7 @@ func (r *recorder) OnQosComplete(cl *mqtt.Client, pk packets.Packet) {
 	r.b.record(HookEvent{Hook: "OnQosComplete", Client: cl.ID, PID: pk.PacketID, Type: pk.FixedHeader.Type})
 }
 func (r *recorder) OnQosDropped(cl *mqtt.Client, pk packets.Packet) {
+	hookPoint("hook.OnQosDropped", cl.ID)
 	r.b.record(HookEvent{Hook: "OnQosDropped", Client: cl.ID, PID: pk.PacketID, Type: pk.FixedHeader.Type, Payload: string(pk.Payload)})
 }
 func (r *recorder) OnPacketIDExhausted(cl *mqtt.Client, pk packets.Packet) {
